@@ -658,6 +658,14 @@ func (t *Tree) Compile(file string, args []string, out io.Writer) (err error) {
 			}
 		}
 	}
+	/* `io "io"` next to the plain import of the same path (the parser's own, or
+	   another one of the grammar) would declare the name twice: it is the same
+	   import */
+	for i, imp := range t.Imports {
+		if path, alias, ok := strings.Cut(imp, "="); ok && alias == path && slices.Contains(t.Imports, path) {
+			t.Imports[i] = path
+		}
+	}
 	/* sort imports by path, then alias, and drop duplicates to satisfy gofmt */
 	slices.SortFunc(t.Imports, func(a, b string) int {
 		pathA, aliasA, _ := strings.Cut(a, "=")
